@@ -14,7 +14,7 @@ use vrp_verif_harness::pragen::*;
 use vrp_verif_harness::*;
 
 fn gen_cases(rng: &mut Rng, tier: Tier) -> Vec<Value> {
-    let n = if tier == Tier::Thorough { 1500 } else { 150 };
+    let n = if tier == Tier::Thorough { 3000 } else { 300 };
     (0..n)
         .map(|i| {
             let mut cfg = GenCfg::random(rng);
@@ -113,7 +113,21 @@ fn dump_route(problem: &vrp_core::models::Problem, route: &Route) -> Value {
             })
         })
         .collect();
+    use vrp_core::models::common::TimeSpan;
+    use vrp_core::solver::processing::ReservedTimesExtraProperty;
+    let reserved: Vec<Value> = problem
+        .extras
+        .get_reserved_times()
+        .and_then(|index| index.get(&route.actor).cloned())
+        .unwrap_or_default()
+        .iter()
+        .map(|r| match &r.time {
+            TimeSpan::Window(tw) => json!({"offset": false, "start": int(tw.start), "stop": int(tw.end), "dur": int(r.duration)}),
+            TimeSpan::Offset(o) => json!({"offset": true, "start": int(o.start), "stop": int(o.end), "dur": int(r.duration)}),
+        })
+        .collect();
     json!({
+        "reserved": reserved, "openEnd": route.actor.detail.end.is_none(),
         "vehicleId": vehicle.dimens.get_vehicle_id().cloned(), "shiftIndex": vehicle.dimens.get_shift_index().copied(),
         "veh": {
             "fixed": int(vehicle.costs.fixed),
@@ -148,13 +162,43 @@ fn exec(case: &Value) -> Value {
         Ok(p) => p,
         Err(codes) => return json!({"error": format!("generated problem is invalid: {codes:?}")}),
     };
+    // solve first, dump the core routes, and only then call the writer: a panic of the writer leaves the dump behind
     let p2 = problem.clone();
-    let solved = isolated(1, move || solve_default(p2, quiet_env(), gens)).expect("solver panicked");
-    let (solution, doc) = match solved {
-        Ok(x) => x,
-        Err(e) => return json!({"error": e}),
+    let solved = isolated(1, move || -> Result<vrp_core::models::Solution, String> {
+        use vrp_core::prelude::*;
+        use vrp_core::rosomaxa::evolution::TelemetryMode;
+        let config = VrpConfigBuilder::new(p2.clone())
+            .set_environment(quiet_env())
+            .set_telemetry_mode(TelemetryMode::None)
+            .prebuild()
+            .map_err(|e| e.to_string())?
+            .with_max_generations(Some(gens))
+            .build()
+            .map_err(|e| e.to_string())?;
+        Solver::new(p2.clone(), config).solve().map_err(|e| e.to_string())
+    });
+    let solution = match solved {
+        Err(_) => return json!({"panic": format!("the solver panicked: {}", last_panic())}),
+        Ok(Err(e)) => return json!({"error": e}),
+        Ok(Ok(s)) => s,
     };
-    let routes: Vec<Value> = solution.routes.iter().map(|r| dump_route(&problem, r)).collect();
+    let routes_dump: Vec<Value> = solution.routes.iter().map(|r| dump_route(&problem, r)).collect();
+    let doc = match std::panic::catch_unwind(std::panic::AssertUnwindSafe(|| solution_json(&problem, &solution))) {
+        Err(_) => {
+            // which schedules the writer was given
+            let odd: Vec<Value> = solution
+                .routes
+                .iter()
+                .flat_map(|r| r.tour.all_activities().map(|a| (a.schedule.arrival, a.schedule.departure)).collect::<Vec<_>>())
+                .filter(|(a, d)| !(a.abs() < 1e12 && d.abs() < 1e12))
+                .map(|(a, d)| json!([a, d]))
+                .collect();
+            return json!({"panic": format!("the writer panicked: {}", last_panic()), "unrepresentable_schedules": odd, "routes": routes_dump});
+        }
+        Ok(Err(e)) => return json!({"error": e}),
+        Ok(Ok(doc)) => doc,
+    };
+    let routes = routes_dump;
     let simple = simplify_solution(&doc);
     json!({"routes": routes, "tours": simple["tours"], "statistic": simple["statistic"]})
 }
